@@ -23,7 +23,7 @@ func (c08) ID() string     { return "C08" }
 func (c08) Level() string  { return "exploration" }
 func (c08) QuickRuns() int { return 60000 }
 func (c08) Rule() string {
-	return "five seeded families measured on the virtual clock: (1) protocol-level runs of every variant under total silence, only irrelevant/malformed packets, bursts, and a steady noise stream faster than the poll interval that continues past every deadline; (2) both engines over a scripted driver with the caller's context cancelled at a seeded instant; (3) ICMP and SACK entry points cancelled at a seeded instant; (4) RunTraceroute with public-IP providers that stall before headers / after headers / mid body or answer slowly, and a resolver that blocks until its context ends; (5) the public-IP fetcher and reverse-DNS functions called directly under the same stalls; the elapsed virtual time of every call must stay within the bound computed from its parameters, a cancelled engine run must return the cancellation error within poll + send delay; non-trivial = the call ran under a stall, flood or cancellation; distinct = distinct shapes"
+	return "five seeded families measured on the virtual clock: (1) protocol-level runs of every variant under total silence, only irrelevant/malformed packets, bursts, and a steady noise stream faster than the poll interval that continues past every deadline; (2) both engines over a scripted driver with the caller's context cancelled at a seeded instant; (3) ICMP and SACK entry points cancelled at a seeded instant; (4) RunTraceroute with public-IP providers that stall before headers / after headers / mid body or answer slowly, and a resolver that blocks until its context ends; (5) the public-IP fetcher and reverse-DNS functions called directly under the same stalls; the elapsed virtual time of every call must stay within the bound computed from its parameters (engine bound of the property; + 5 providers x 2 s when the public address is requested; + one 5 s look-up time-out, however many of up to 40 addresses are resolved, when reverse DNS is requested; 0.5 s slack each), a cancelled engine run must return the cancellation error within poll + send delay; non-trivial = the call ran under a stall, flood or cancellation; distinct = distinct shapes"
 }
 func (c08) Assumptions() []string {
 	return []string{"service bounds are deliberately about 2x the documented ones (public IP 30 s vs 5 x 2 s, reverse DNS 10 s vs 5 s): the oracle catches hangs, not constant tuning", "the SACK handshake read budget is a constant of the code, so generated handshake timeouts are >= 1 s", "processing cost of floods is not modelled (virtual time stands still while a goroutine computes)"}
@@ -301,7 +301,7 @@ func (c18) ID() string     { return "C18" }
 func (c18) Level() string  { return "exploration" }
 func (c18) QuickRuns() int { return 300000 }
 func (c18) Rule() string {
-	return "three seeded families: (a) Results.EnrichWithReverseDns over hop multisets with duplicates, unanswered hops, IPv4/IPv6/IPv4-mapped addresses, the scripted resolver answering per call with unique names, empty lists, errors or slowly, the choice tape ordering the concurrent lookups; (b) sequences of GetReverseDns / PublicIPFetcher.GetIP calls by 1-3 concurrent callers separated by virtual sleeps around the 1 h / 2 h expiries; (c) GetPublicIP with per-provider scripts (status classes, valid/invalid bodies, transport errors, stalls) and a deterministic back-off policy; checked: names on a hop are a list the resolver returned for that very address; a stored success is returned without re-querying until expiry and failures are never stored; providers are contacted in list order, iteration stops at the first valid address, a 4xx or invalid body gets exactly one request, retries stay inside the provider's budget; non-trivial = a lookup failed, a cache entry was reused or expired, or more than one provider was contacted; distinct = distinct shapes"
+	return "three seeded families: (a) Results.EnrichWithReverseDns over hop multisets with duplicates, unanswered hops, IPv4/IPv6/IPv4-mapped addresses, the scripted resolver answering per call with unique names, empty lists, errors or slowly, the choice tape ordering the concurrent lookups; (b) sequences of GetReverseDns / PublicIPFetcher.GetIP calls by 1-3 concurrent callers separated by virtual sleeps around the 1 h / 2 h expiries; (c) GetPublicIP with per-provider scripts (any status code of the 2xx/3xx/4xx/5xx classes, valid/invalid bodies, transport errors, stalls; resolver failures of the generic, not-found, time-out and temporary classes) and a deterministic back-off policy; checked: names on a hop are a list the resolver returned for that very address; a stored success is returned without re-querying until expiry and failures are never stored; providers are contacted in list order, iteration stops at the first valid address, a 4xx or invalid body gets exactly one request, retries stay inside the provider's budget; non-trivial = a lookup failed, a cache entry was reused or expired, or more than one provider was contacted; distinct = distinct shapes"
 }
 func (c18) Assumptions() []string {
 	return []string{"the provider order is specification data of the harness (icanhazip, ipinfo, checkip.amazonaws, api.ipify, whatismyip.akamai)", "concurrent misses may both query (the cache is not required to be an atomic get-or-compute); porcupine is therefore not used, the history rule of the property is checked directly"}
@@ -359,7 +359,7 @@ func (c18) Gen(rng *rand.Rand, tier string, i int) *sim.Scenario {
 			var script []string
 			for k := 0; k < 10; k++ {
 				script = append(script, pick(rng, "refuse", "closeEarly", fmt.Sprintf("status:%d:oops", serverStatus(rng)), fmt.Sprintf("status:%d:", serverStatus(rng)), fmt.Sprintf("status:200:198.51.100.%d", 1+p), fmt.Sprintf("status:%d:198.51.100.%d", serverStatus(rng), 50+p),
-					fmt.Sprintf("status:%d:nope", clientStatus(rng)), fmt.Sprintf("status:%d:198.51.100.%d", clientStatus(rng), 150+p), "status:200:not-an-ip", "status:200:", fmt.Sprintf("status:200:  2001:db8::%d \n", 1+p), "stallBeforeHeaders", "status:302:moved"))
+					fmt.Sprintf("status:%d:nope", clientStatus(rng)), fmt.Sprintf("status:200:\n\t 198.51.100.%d \r\n", 1+p), fmt.Sprintf("status:200:2001:DB8::%X", 10+p), "status:200:1.2.3", "status:200:256.1.1.1", "status:200:<html><body>198.51.100.9</body></html>", fmt.Sprintf("status:203:198.51.100.%d", 1+p), fmt.Sprintf("status:%d:198.51.100.%d", clientStatus(rng), 150+p), "status:200:not-an-ip", "status:200:", fmt.Sprintf("status:200:  2001:db8::%d \n", 1+p), "stallBeforeHeaders", "status:302:moved"))
 			}
 			sc.HTTP = append(sc.HTTP, sim.HTTPPlan{Provider: p, Script: script})
 		}
